@@ -231,4 +231,37 @@ func genC19(w *bufio.Writer, tier string, rng *rand.Rand) {
 			fmt.Fprintf(w, "dom %s\n", fmtInts(idom))
 		}
 	}
+	// graphs of more than 1024 nodes under a random renumbering (the traversal's storage grows while it runs,
+	// and nodes are met again after it grew): trees and layered DAGs with cross and back edges
+	for k := 0; k < pick(tier, 2, 30); k++ {
+		n := 1030 + rng.Intn(pick(tier, 150, 2000))
+		kind := []string{"tree", "layers"}[rng.Intn(2)]
+		g0 := structGraph(rng, kind, n)
+		for b := 0; b < 5+rng.Intn(30); b++ {
+			u := rng.Intn(n)
+			g0[u] = append(g0[u], rng.Intn(n))
+		}
+		perm := rng.Perm(n)
+		if n > 2100 && k%2 == 1 { // the walk starts at ids at and next to a power of two
+			for i, v := range perm {
+				if v == 2048 {
+					perm[0], perm[i] = perm[i], perm[0]
+				}
+			}
+			for i, v := range perm {
+				if v == 2049 || v == 2047 {
+					j := 1 + rng.Intn(2)
+					perm[j], perm[i] = perm[i], perm[j]
+				}
+			}
+		}
+		g := make([][]int, n)
+		for u := range g0 {
+			for _, v := range g0[u] {
+				g[perm[u]] = append(g[perm[u]], perm[v])
+			}
+		}
+		gs := fmtIntss(g)
+		fmt.Fprintf(w, "idom %s %d\n", gs, perm[0])
+	}
 }
